@@ -10,6 +10,7 @@ from .. import gen, monitors
 
 PID = "C01"
 ANCHORS = ["scores.py:Scores.cm", "scores.py:Scores.__init__", "scores.py:pointwise_cm"]
+RAISES_ARE_VIOLATIONS = True
 DECIDING = {"M-cm": 2000, "M-pw": 50, "R-pwsum": 50}
 QUICK_EXTRA = ["WX"]
 THOROUGH_EXTRA = ["WX", "W2", "W3"]
